@@ -4,7 +4,8 @@ import json
 from ..spec import reply_method_for
 from .common import Canon, draw_env, draw_response, draw_world, dumps
 from .c02 import strip_display
-from .replies import b64, draw_events, draw_msg_responses, draw_payload, ids_of, rand_bytes, wellformed_data
+from .replies import (b64, draw_events, draw_msg_responses, draw_payload, ids_of, payload_for_name, rand_bytes,
+                      wellformed_data)
 
 
 def std_as_contract_err(prog, text):
@@ -30,7 +31,7 @@ def check_prog(ctx, r, prog, n):
                 # payload must decode for the method that runs; for pass-through anything goes
                 sig = info["payload"]
                 pnames = m["payload_names"] if m else ["payload"]
-                payload, pargs, _ = draw_payload(rng, prog, canon, sig, pnames)
+                payload, pargs, _ = payload_for_name(r, rng, prog, canon, name, info, pnames)
                 if m is None and it % 2:
                     # nobody decodes the payload of an outcome without a method: anything must pass through
                     payload = rng.choice(["", b64(b"\xff\x00not json"), b64(b"{"), b64(rand_bytes(rng, 9))])
